@@ -8,7 +8,8 @@
                                   no Length-typed field other than BodyLength (pairing: C06);
      auto_once:                   no automatic field (8 9 35 of the header, 10 of the trailer)
                                   occurs again between the first three tokens and the last;
-     the values of 9 and 35 fit factory's 32-byte buffers; the whole message is shorter than 2^31.
+     the values of 9 and 35 fit factory's 32-byte buffers; the three bytes of 10 are digits;
+     the whole message is shorter than 2^31.
    rendered c toks = every value survives its type's rendering: printing the field object built
      from the text gives the text back (for int types: the same integer); the BeginString is
      the schema's own (C04-beginstring-ignored). *)
@@ -39,7 +40,8 @@ Definition auto_once (c : ctx) (toks : list tok) : bool :=
 Definition exact_hyps (c : ctx) (toks : list tok) : bool :=
   framed toks && toks_ok c toks && auto_once c toks &&
   match toks with
-  | _ :: t9 :: t35 :: _ => (lenN (k_val t9) <? 32) && (lenN (k_val t35) <? 32)
+  | t8 :: t9 :: t35 :: _ => (lenN (k_val t9) <? 32) && (lenN (k_val t35) <? 32) &&
+                            forallb is_digit (k_val (last toks t8))          (* 10=ddd *)
   | _ => false
   end &&
   (lenN (ser toks) <? 2147483648).
